@@ -34,7 +34,7 @@ type GenCfg struct {
 	MaxDepth int
 	MaxTotal int // budget of generated statements per program (0 = 40)
 	// weights of statement kinds
-	WLine, WOptions, WIf, WSet, WDeclare, WJump, WJumpE, WStop, WCall, WCommand, WWait int
+	WLine, WOptions, WIf, WSet, WDeclare, WJump, WJumpE, WStop, WCall, WCommand, WWait, WFault int
 	NVars                                                                              [3]int // numbers, booleans, strings
 	NJVars                                                                             int    // string variables that hold node titles
 	Probes                                                                             bool   // pn/pb/ps/pn2 host functions in expressions
@@ -54,6 +54,7 @@ type GenCfg struct {
 	NonASCII                                                                           bool
 	NoDeclarePrelude                                                                   bool
 	TrackingPct                                                                        int
+	VarLines                                                                           bool // C03: lines render the pool variables
 }
 
 type gen struct {
@@ -198,7 +199,10 @@ func (g *gen) body(depth int) []*Stmt {
 
 func (g *gen) stmt(depth int) *Stmt {
 	c := g.cfg
-	w := []int{c.WLine, c.WOptions, c.WIf, c.WSet, c.WDeclare, c.WJump, c.WJumpE, c.WStop, c.WCall, c.WCommand, c.WWait}
+	w := []int{c.WLine, c.WOptions, c.WIf, c.WSet, c.WDeclare, c.WJump, c.WJumpE, c.WStop, c.WCall, c.WCommand, c.WWait, 0}
+	if c.Faults > g.faults {
+		w[11] = c.WFault
+	}
 	if depth >= c.MaxDepth {
 		w[1], w[2] = 0, 0
 	}
@@ -237,8 +241,51 @@ func (g *gen) stmt(depth int) *Stmt {
 		return g.command()
 	case 10:
 		return g.wait()
+	case 11:
+		g.faults++
+		return g.faultStmt()
 	}
 	return g.line()
+}
+
+// faultStmt is a statement-level fault site (C06): valid syntax, must fail at run time.
+func (g *gen) faultStmt() *Stmt {
+	switch g.tp.Int(0, 9, "faultstmt") {
+	case 0:
+		return &Stmt{K: sCommand, Cmd: "nocmd", Args: []CmdArg{{Word: "1"}}}
+	case 1:
+		return &Stmt{K: sJump, Target: "Nowhere"}
+	case 2:
+		return &Stmt{K: sJumpE, E: g.bin("+", numLit(1), numLit(1))}
+	case 3:
+		return &Stmt{K: sJumpE, E: &Expr{K: eStr, S: "no such node"}}
+	case 4:
+		return &Stmt{K: sCall, E: &Expr{K: eCall, S: "nofunc"}}
+	case 5:
+		if len(g.vars[0]) > 0 {
+			return &Stmt{K: sSet, Var: g.vars[0][0], Op: "=", E: &Expr{K: eStr, S: "now a string"}}
+		}
+		return &Stmt{K: sSet, Var: "fresh9", Op: "+=", E: numLit(1)}
+	case 6:
+		return &Stmt{K: sCommand, Cmd: "wait", Args: []CmdArg{{Word: "abc"}}}
+	case 7:
+		return &Stmt{K: sCommand, Cmd: "wait"}
+	case 8:
+		if len(g.cfg.Handlers) > 0 {
+			h := g.cfg.Handlers[0]
+			if h.Shape[:4] == "conv" && h.Vari == "" {
+				// one argument too many
+				s := &Stmt{K: sCommand, Cmd: h.Name}
+				for range h.Params {
+					s.Args = append(s.Args, CmdArg{Word: "1"})
+				}
+				s.Args = append(s.Args, CmdArg{Word: "extra"})
+				return s
+			}
+		}
+		return &Stmt{K: sCall, E: &Expr{K: eCall, S: "pn", A: []*Expr{{K: eBool, B: true}}}}
+	}
+	return &Stmt{K: sIf, Clauses: []*Clause{{Cond: numLit(1), Body: []*Stmt{g.line()}}}}
 }
 
 func (g *gen) jumpTarget() string {
@@ -282,6 +329,14 @@ func (g *gen) lineS(isOption bool) *LineS {
 			l.Parts = append(l.Parts, Part{Text: " "}, Part{E: &Expr{K: eCall, S: "visited_count", A: []*Expr{{K: eStr, S: t}}}})
 			l.Parts = append(l.Parts, Part{Text: ","}, Part{E: &Expr{K: eCall, S: "visited", A: []*Expr{{K: eStr, S: t}}}})
 		}
+	}
+	if g.cfg.VarLines && g.tp.Chance(70, "varline") {
+		for k := 0; k < 3; k++ {
+			for _, v := range g.vars[k] {
+				l.Parts = append(l.Parts, Part{Text: " " + v + "="}, Part{E: &Expr{K: eVar, S: v}})
+			}
+		}
+		l.Parts = append(l.Parts, Part{Text: " ."})
 	}
 	if g.tp.Chance(g.cfg.InlinePct, "inline") {
 		k := g.tp.Int(1, 2, "ninline")
@@ -685,4 +740,61 @@ func (g *gen) faultExpr(ty byte) *Expr {
 	}
 	// wrong result type for the position (e.g. a number where a boolean is needed)
 	return other()
+}
+
+// ensureYieldingCycles makes every cycle of the jump graph pass through a node
+// that yields (line or option group) before it can jump, so that worlds driven
+// without the model's step budget cannot contain a non-yielding cycle (which is
+// a non-terminating program, not a property violation).
+func (g *gen) ensureYieldingCycles(p *Program) {
+	yieldFirst := func(n *Node) bool {
+		for _, s := range n.Body {
+			switch s.K {
+			case sCall, sSet, sDeclare:
+				continue
+			case sLine, sOptions:
+				return true
+			default:
+				return false
+			}
+		}
+		return false
+	}
+	index := map[string]int{}
+	yf := map[string]bool{}
+	for i, n := range p.Nodes {
+		index[n.Title] = i
+		yf[n.Title] = yieldFirst(n)
+	}
+	for i, n := range p.Nodes {
+		if yf[n.Title] {
+			continue
+		}
+		ok := true
+		walkStmts(n.Body, func(s *Stmt) {
+			switch s.K {
+			case sJump:
+				if j, found := index[s.Target]; found && j <= i && !yf[s.Target] {
+					ok = false
+				}
+			case sJumpE:
+				if s.E.K != eStr {
+					ok = false
+				} else if j, found := index[s.E.S]; found && j <= i && !yf[s.E.S] {
+					ok = false
+				}
+			}
+		})
+		if !ok {
+			at := 0
+			if len(n.Body) > 0 && n.Body[0].K == sCall && n.Body[0].E.S == "enter" {
+				at = 1
+			}
+			body := append([]*Stmt{}, n.Body[:at]...)
+			body = append(body, g.line())
+			body = append(body, n.Body[at:]...)
+			n.Body = body
+			yf[n.Title] = true
+		}
+	}
 }
